@@ -184,7 +184,10 @@ class BaseSimfile(OrderedDict, Serializable, metaclass=ABCMeta):
 
     def serialize(self, file: TextIO):
         for (key, value) in self.items():
-            if key in BaseSimfile.MULTI_VALUE_PROPERTIES:
+            if value is None:
+                # Key-only parameter, e.g. "#TITLE;"
+                param = MSDParameter((key,))
+            elif key in BaseSimfile.MULTI_VALUE_PROPERTIES:
                 param = MSDParameter((key, *value.split(":")))
             else:
                 param = MSDParameter((key, value))
